@@ -3,6 +3,7 @@ package server
 import (
 	"context"
 	"errors"
+	"github.com/mimecast/dtail/internal/vhook"
 	"strings"
 	"time"
 
@@ -124,10 +125,13 @@ func (a *Aggregate) nextLine() (line *line.Line, ok bool, noMoreChannels bool) {
 	case line, ok = <-a.linesCh:
 		if !ok {
 			// Channel is closed, go to next channel.
+			vhook.Point("mapr.agg.closed", vhook.ID(a))
 			select {
 			case a.linesCh = <-a.NextLinesCh:
+				vhook.Point("mapr.agg.take", vhook.ID(a))
 			default:
 				noMoreChannels = true
+				vhook.Point("mapr.agg.nomore", vhook.ID(a))
 			}
 		}
 	default:
@@ -135,6 +139,7 @@ func (a *Aggregate) nextLine() (line *line.Line, ok bool, noMoreChannels bool) {
 		select {
 		case newLinesCh := <-a.NextLinesCh:
 			oldLinesCh := a.linesCh
+			vhook.Point("mapr.agg.requeue", vhook.ID(a))
 			go func() { a.NextLinesCh <- oldLinesCh }()
 			a.linesCh = newLinesCh
 		default:
